@@ -3,7 +3,7 @@ The public API as a state machine over the process-wide state (C12).
 
 Transcribes cnl2asp.py: Cnl2asp.parse_input / compile / get_symbols / check_syntax / cnl_to_json with respect to
   SignatureManager.signatures   (process-wide table; emptied at the start of parse_input and of compile, and at the end of get_symbols)
-  Utility.AUTO_ENTITY_LINK      (process-wide flag; written by compile, read while parsing)
+  Utility.AUTO_ENTITY_LINK      (process-wide flag; set by compile for the duration of the call and restored afterwards; read while parsing)
 The front end (Lark + CNLTransformer), the converters and the printers are ABSTRACT: they are parameters of the
 model, so the theorems hold whatever parsing and conversion do, as long as they are functions of their arguments
 (frame conditions checked on the real code by the monitors of harness/props/c12.py).
@@ -43,11 +43,11 @@ def step (F : Front σ ρ Out) (g : G σ) : Call → G σ × Out
   | .compile text al pf =>
     let g1 : G σ := { sigs := F.empty, autoLink := al }
     let (g2, r) := parseInput F g1 text
-    (g2, F.toAsp r pf)
+    ({ g2 with autoLink := g.autoLink }, F.toAsp r pf)          -- the option is in force during the call only
   | .getSymbols text =>
     let g1 : G σ := { sigs := F.empty, autoLink := true }
     let (g2, r) := parseInput F g1 text
-    ({ g2 with sigs := F.empty }, F.symbols g2.sigs r)
+    ({ sigs := F.empty, autoLink := g.autoLink }, F.symbols g2.sigs r)
   | .checkSyntax text =>
     let (g2, r) := parseInput F g text
     (g2, F.valid r)
@@ -58,11 +58,5 @@ def step (F : Front σ ρ Out) (g : G σ) : Call → G σ × Out
 def run (F : Front σ ρ Out) (g : G σ) : List Call → G σ
   | [] => g
   | c :: cs => run F (step F g c).1 cs
-
-/-- the observable results of check_syntax / cnl_to_json do not depend on the auto-link flag
-(frame condition; validated on the real code by running both calls under both flag values) -/
-def FlagBlind (F : Front σ ρ Out) : Prop :=
-  ∀ s t, F.valid (F.parse s t true).2 = F.valid (F.parse s t false).2 ∧
-         F.toJson (F.parse s t true).1 (F.parse s t true).2 = F.toJson (F.parse s t false).1 (F.parse s t false).2
 
 end Cnl2aspModel.Api
